@@ -13,6 +13,7 @@ from pathlib import Path
 import numpy as np
 
 from lib import apps_k6 as K
+from lib import apps_k6b as K2
 from lib import core
 
 RULE = ("similarity: every photon number 0..N (N=22 quick / 40 thorough) for orbits; orbits x mode counts 1..220 "
@@ -41,7 +42,8 @@ ERR = {"Input is not a valid subgraph": "notSubgraph", "Input subgraph is not a 
        "Number of node weights must match number of nodes": "weightLen",
        "Node selection method not recognized": "notRecognized", "min_size must be at least 1": "minSize",
        "max_size must be less than number of nodes in graph": "maxSize",
-       "max_size must not be less than min_size": "maxLtMin"}
+       "max_size must not be less than min_size": "maxLtMin",
+       "Number of iterations must be a positive int": "iterations"}
 
 
 def canon(st, r, f=lambda x: x):
@@ -247,6 +249,17 @@ def corr_graph_case(ctx, B, gd, rng, heavy=True):
     ctx.tally("shrink:" + ("ok" if st == "ok" else "error"))
     if not heavy:
         return
+    # clique.search: several rounds of grow + swap with one script of choices
+    kind = rng.choice(["clique"] * 9 + ["subset", "foreign"])
+    S = rand_seed_set(rng, gd, kind)
+    if kind == "clique" and len(S) > 2:
+        S = S[:rng.randint(1, 2)]
+    sel = rand_sel(rng, gd)
+    case = dict(g=gd, S=S, sel=sel, picks=rand_picks(rng, 40), iterations=rng.choice([0, 1, 2, 2, 3, 3, 4, 6]))
+    st, r = K2.chk_clique_search(ctx, case)
+    B.add("clique.search", dict(op="apps.cliqueSearch", g=gd, S=S, sel=sel, picks=case["picks"], it=case["iterations"]),
+          canon(st, r, ints), case)
+    ctx.count(f"clique_search:{kind}:{sel if isinstance(sel, str) else 'weight'}", ("csearch", case), nt, sample=case)
     # resize
     kind = rng.choice(["subset"] * 9 + ["dup", "foreign"])
     S = rand_seed_set(rng, gd, kind)
@@ -326,6 +339,8 @@ def oracle_big(ctx):
     for i in range(ctx.n(2400, 16000)):
         n = rng.randint(2, ctx.n(11, 14) if ctx.boost == 1 else 11)
         gd = K.rand_graph(rng, n, labels=rng.choice(["range", "shuffled", "sparse"]))
+        if rng.random() < 0.25:     # edge attributes ("weight") must not influence degrees or densities
+            gd["ew"] = [rng.choice([0.5, 2, 3, 10]) for _ in gd["edges"]]
         lab = "range" if gd["nodes"] == sorted(gd["nodes"]) else "relabelled"
         nt = nontrivial_graph(gd)
         S = rand_seed_set(rng, gd, "clique")
@@ -339,12 +354,131 @@ def oracle_big(ctx):
         K.chk_resize(ctx, dict(g=gd, S=rand_seed_set(rng, gd, "subset"), min=lo, max=hi,
                                sel=rand_sel(rng, gd, False, p_bad=0), picks=rand_picks(rng, 20)))
         if i % 3 == 0:
-            K.chk_clique_search(ctx, dict(g=gd, S=S, sel=rand_sel(rng, gd, p_bad=0), picks=rand_picks(rng, 40),
-                                          iterations=rng.randint(1, 4)))
+            K2.chk_clique_search(ctx, dict(g=gd, S=S, sel=rand_sel(rng, gd, p_bad=0), picks=rand_picks(rng, 40),
+                                           iterations=rng.randint(1, 6)))
             subs = [rand_seed_set(rng, gd, "subset") for _ in range(rng.randint(1, 4))]
+            if rng.random() < 0.15:    # documented default max_count = 10, with enough seeds to fill a list
+                subs = [rand_seed_set(rng, gd, "subset") for _ in range(rng.randint(12, 18))]
             K.chk_search(ctx, dict(g=gd, subs=subs, min=lo, max=hi, maxCount=rng.randint(1, 3),
-                                   sel=rand_sel(rng, gd, False, p_bad=0), picks=rand_picks(rng, 60)))
+                                   default_max_count=len(subs) >= 12,
+                                   sel=rand_sel(rng, gd, False, p_bad=0), picks=rand_picks(rng, 200 if len(subs) >= 12 else 60)))
         ctx.count("oracle-graph:" + lab, ("big", gd, S, S2), nt)
+
+
+def oracle_clique_search(ctx):
+    """clique.search on graphs where several rounds happen and the candidates differ in degree / weight"""
+    rng = ctx.rng
+    for i in range(ctx.n(700, 4000)):
+        n = rng.randint(6, 12)
+        gd = K.rand_graph(rng, n, labels=rng.choice(["range", "shuffled", "sparse"]))
+        r = rng.random()
+        S = K.rand_clique(rng, gd)
+        if r < 0.7:
+            S = S[:rng.randint(1, 2)]          # small seed: growth and swaps have room
+        sel = rand_sel(rng, gd, p_bad=0.01)
+        case = dict(g=gd, S=S, sel=sel, picks=rand_picks(rng, 60), iterations=rng.choice([1, 2, 2, 3, 3, 4, 5, 6, 0, -1]))
+        if sel == "uniform" and rng.random() < 0.5:
+            case["default_sel"] = True
+        K2.chk_clique_search(ctx, case)
+        ctx.count("oracle-clique-search:" + (sel if isinstance(sel, str) else "weight"), ("ocs", case), nontrivial_graph(gd))
+
+
+HIST_FNS = ["search"] * 5 + ["resize"] * 3 + ["grow", "swap", "shrink", "clique_search", "c_0", "c_1", "is_clique", "to_subgraphs"]
+
+
+def gen_history_case(rng):
+    n = rng.randint(3, 9)
+    gA = K.rand_graph(rng, n, labels=rng.choice(["range", "range", "shuffled", "sparse"]))
+    nodes = gA["nodes"]
+    fn = rng.choice(HIST_FNS)
+    a = {}
+    if fn in ("grow", "swap", "c_0", "c_1", "clique_search"):
+        a["S"] = K.rand_clique(rng, gA)
+        if fn == "swap" and rng.random() < 0.6:     # a maximal clique makes swaps possible
+            adj = K.adjsets(gA)
+            for v in nodes:
+                if v not in a["S"] and all(v in adj[c] for c in a["S"]):
+                    a["S"].append(v)
+    elif fn in ("shrink", "is_clique", "resize"):
+        a["S"] = rng.sample(nodes, rng.randint(1, n))
+    if fn in ("grow", "swap", "clique_search"):
+        a["sel"] = rand_sel(rng, gA, p_bad=0)
+    elif fn in ("shrink", "resize", "search"):
+        a["sel"] = rand_sel(rng, gA, allow_degree=False, p_bad=0)
+    if fn == "clique_search":
+        a["iterations"] = rng.randint(1, 4)
+    focus = list(a.get("S", nodes))
+    if fn == "resize":
+        k = len(set(a["S"]))
+        lo = max(1, min(k, n - 1) - rng.randint(0, 2))
+        a["min"], a["max"] = lo, min(n - 1, max(lo, k + rng.randint(0, 2)))
+    if fn == "search":
+        a["subs"] = [rng.sample(nodes, rng.randint(2, max(2, n - 1))) for _ in range(rng.randint(1, 4))]
+        k = min(len(a["subs"][0]), n - 1)
+        lo = max(1, k - rng.randint(0, 1))
+        a["min"], a["max"], a["maxCount"] = lo, min(n - 1, max(lo, k + rng.randint(0, 1))), rng.randint(1, 3)
+        focus = list(a["subs"][0])
+    if fn == "to_subgraphs":
+        a["samples"] = [[rng.choice([0, 1, 2]) for _ in nodes] for _ in range(3)]
+    # content B: toggle pairs inside the subset(s) evaluated by the first call, and a few elsewhere
+    edges = {frozenset(e) for e in gA["edges"]}
+    toggles = []
+    for _ in range(rng.randint(1, 3)):
+        if len(focus) >= 2:
+            toggles.append(frozenset(rng.sample(focus, 2)))
+    for _ in range(rng.randint(0, 2)):
+        if n >= 2:
+            toggles.append(frozenset(rng.sample(nodes, 2)))
+    for t in toggles:
+        if len(t) == 2:
+            edges ^= {t}
+    order = {v: i for i, v in enumerate(nodes)}
+    gB = dict(nodes=list(nodes), edges=[sorted(e, key=order.get) for e in sorted(edges, key=lambda e: sorted(order[x] for x in e))])
+    case = dict(fn=fn, g=gA, gB=gB, args=a, picks=rand_picks(rng, 40))
+    if isinstance(a.get("sel"), dict) and rng.random() < 0.6:
+        a2 = dict(a)
+        a2["sel"] = dict(w=[rng.randint(0, 3) for _ in nodes])
+        case["args2"] = a2
+    return case
+
+
+def oracle_history(ctx):
+    rng = ctx.rng
+    for i in range(ctx.n(900, 5000)):
+        case = gen_history_case(rng)
+        K2.chk_history(ctx, case)
+        ctx.count("history:" + case["fn"], ("hist", case), nontrivial_graph(case["g"]))
+
+
+def oracle_similarity_extras(ctx):
+    rng = ctx.rng
+    for _ in range(ctx.n(40, 200)):
+        K2.chk_orbits_interleaved(ctx, dict(n1=rng.randint(0, 9), n2=rng.randint(0, 9)))
+    for _ in range(ctx.n(150, 800)):
+        n = rng.randint(0, 9)
+        m = rng.randint(0, 4)
+        modes = rng.randint(1, 9)
+        K2.chk_event_to_sample(ctx, dict(n=n, m=m, modes=modes, pick=rng.randint(0, 20)))
+    for _ in range(ctx.n(100, 500)):
+        L = rng.randint(1, 6)
+        samples = [[rng.choice([0, 0, 1, 1, 2, 3]) for _ in range(L)] for _ in range(rng.randint(1, 8))]
+        orbs = [rand_partition(rng, rng.randint(1, 5)) for _ in range(rng.randint(1, 4))]
+        orbs += [sorted((x for x in rng.choice(samples) if x), reverse=True) or [1]]
+        case = dict(samples=samples, orbits=orbs, events=[rng.randint(0, 6) for _ in range(rng.randint(1, 4))])
+        if rng.random() < 0.7:
+            case["m"] = rng.randint(0, 3)
+        K2.chk_feature_sampling(ctx, case)
+    for _ in range(ctx.n(120, 600)):
+        orbs = [rand_partition(rng, rng.randint(1, 8)) for _ in range(2)]
+        ms = [rng.randint(1, 30) for _ in range(3)]
+        oc = [[rng.choice(orbs), rng.choice(ms)] for _ in range(8)]
+        ns, bs, md = [rng.randint(0, 7) for _ in range(2)], [rng.randint(1, 4) for _ in range(2)], [rng.randint(1, 9) for _ in range(2)]
+        ec = [[rng.choice(ns), rng.choice(bs), rng.choice(md)] for _ in range(6)]
+        ss = [rand_sample(rng) for _ in range(2)]
+        sc = [[rng.choice(ss), rng.randint(0, 4)] for _ in range(6)]
+        o2s = [[rng.choice(orbs), rng.randint(0, 10)] for _ in range(3)]
+        K2.chk_similarity_sequence(ctx, dict(orbit_calls=oc, event_calls=ec, sample_calls=sc, o2s=o2s))
+    ctx.count("similarity-extras", None, False)
 
 
 def corpus_cases():
@@ -376,6 +510,9 @@ def run(ctx, sf):
     corr_sample(ctx, B)
     B.flush()
     oracle_big(ctx)
+    oracle_clique_search(ctx)
+    oracle_history(ctx)
+    oracle_similarity_extras(ctx)
 
 
 def search(ctx, sf):
